@@ -175,9 +175,35 @@ pub fn small_file(rng: &mut Rng, padding: Pad) -> Option<Vec<u8>> {
 /// Scenario C: update_file (in place: grow / shrink / equal; rebuild) over a faulty file object.
 fn scenario_update(rep: &mut Report, rng: &mut Rng) {
     let pad = *rng.pick(&[Pad::None, Pad::Size(0), Pad::Size(10), Pad::Size(100), Pad::Size(1000)]);
-    let Some(file) = small_file(rng, pad) else { return };
-    // the edit: set a tag of a chosen length (grow, shrink or equal relative to the previous value)
-    let value_len = rng.usize(0, 150);
+    let Some(file0) = small_file(rng, pad) else { return };
+    // first (fault-free) edit gives the file a TITLE of length l0; the faulted edit then
+    // replaces it by a value that is equal in length, shorter or longer
+    let l0 = rng.usize(0, 120);
+    let mut f0 = Mem::with_data(file0);
+    let v0 = "a".repeat(l0);
+    let mut rb0 = Mem::new();
+    let first = {
+        let rbr = &mut rb0;
+        metadata::update_file(&mut f0, move || Ok(rbr), |bl: &mut BlockList| -> Result<(), flac_codec::Error> {
+            bl.update::<flac_codec::metadata::VorbisComment>(|vc| vc.set("TITLE", &v0));
+            Ok(())
+        })
+    };
+    let file = match first {
+        Ok(true) => rb0.data,
+        Ok(false) => f0.data,
+        Err(_) => return,
+    };
+    let value_len = match rng.below(3) {
+        0 => l0,
+        1 => l0.saturating_sub(rng.usize(1, 30)),
+        _ => l0 + rng.usize(1, 150),
+    };
+    rep.count("update_size_relation", match value_len.cmp(&l0) {
+        std::cmp::Ordering::Equal => "equal",
+        std::cmp::Ordering::Less => "shrink",
+        std::cmp::Ordering::Greater => "grow",
+    });
     let value = "v".repeat(value_len);
     let edit = |bl: &mut BlockList| -> Result<(), flac_codec::Error> {
         bl.update::<flac_codec::metadata::VorbisComment>(|vc| vc.set("TITLE", &value));
@@ -455,8 +481,10 @@ fn c14_case(rep: &mut Report, rng: &mut Rng, thorough: bool) {
         let expect_n = ends.iter().filter(|(e, _)| *e <= p).map(|(_, n)| *n).last().unwrap_or(0);
         for kind in [Rd::SampleRead, Rd::ByteLE, Rd::Channel] {
             rep.eval();
-            let obs = mon::observe(|| decode_all(std::io::Cursor::new(prefix), kind, 4096));
-            let replay = || J::obj().set("cfg", cfg.to_json()).set("front", format!("{front:?}")).set("prefinalize_stream", J::hex(&full)).set("crash_at", p).set("reader", format!("{kind:?}"));
+            // request sizes that do and do not divide a frame
+            let n = [4096usize, 1, 3, 100, 300, 7][(p + kind as usize) % 6];
+            let obs = mon::observe(|| decode_all(std::io::Cursor::new(prefix), kind, n));
+            let replay = || J::obj().set("cfg", cfg.to_json()).set("front", format!("{front:?}")).set("read_size", n).set("prefinalize_stream", J::hex(&full)).set("crash_at", p).set("reader", format!("{kind:?}"));
             match obs.result {
                 Err(pn) => rep.violation("panic", pn.signature(), format!("crash at {p}: {kind:?}: {} at {}", pn.msg, pn.location), replay()),
                 Ok(dd) => {
